@@ -11,7 +11,11 @@ From SF Require Export CwlCmd.Model.
 Import ListNotations.
 
 Inductive ccase :=
-| CTool (t : tool) (j : job) (cmd sfa refa : option (list string)).
+| CTool (t : tool) (j : job) (cmd sfa refa : option (list string))
+        (stdout stderr : option string) (ok : bool) (obs_out obs_err : option string)
+   (* ok: StreamFlow completed, so obs_out/obs_err are meaningful *)
+| CStreams (stdout stderr : option string) (obs_out obs_err : option string).
+   (* declared stdout/stderr of the tool; the files fd 1 / fd 2 of the process were on under StreamFlow *)
 
 Definition agrees (model : option (list string)) (obs : option (list string)) : bool :=
   match model, obs with
@@ -21,10 +25,13 @@ Definition agrees (model : option (list string)) (obs : option (list string)) : 
 
 Definition check_case (c : ccase) : bool :=
   match c with
-  | CTool t j cmd sfa refa =>
+  | CTool t j cmd sfa refa so se ok oo oe =>
       (* StreamFlow: the command list, then the argv whenever the fragment can read the line *)
       agrees (Some (sf_cmd t j)) cmd
       && agrees (sf_argv t j) sfa
       (* cwltool: execve of the pieces, or /bin/sh -c of the line *)
       && agrees (if t_shell t then sh_words (spec_line t j) else Some (spec_argv t j)) refa
+      && (negb ok || (opt_eqb String.eqb (sf_stdout_target so se) oo && opt_eqb String.eqb (sf_stderr_target so se) oe))
+  | CStreams so se oo oe =>
+      opt_eqb String.eqb (sf_stdout_target so se) oo && opt_eqb String.eqb (sf_stderr_target so se) oe
   end.
